@@ -30,6 +30,7 @@ PARAMS = {
     'allencahn_front_fullyimplicit': dict(nvars=31), 'allencahn_front_semiimplicit': dict(nvars=31), 'allencahn_front_finel': dict(nvars=31),
     'allencahn_fullyimplicit': dict(nvars=(16, 16)), 'allencahn_semiimplicit': dict(nvars=(16, 16)), 'allencahn_semiimplicit_v2': dict(nvars=(16, 16)),
     'allencahn_multiimplicit': dict(nvars=(16, 16)), 'allencahn_multiimplicit_v2': dict(nvars=(16, 16)), 'allencahn2d_imex': dict(nvars=(16, 16)),
+    'allencahn2d_imex_stab': dict(nvars=(16, 16), nu=4),
     'generalized_fisher': dict(nvars=31), 'heatNd_forced': dict(nvars=(31,), bc='dirichlet-zero'), 'heatNd_unforced': dict(nvars=(31,), bc='dirichlet-zero'),
     'advectionNd': dict(nvars=(32,), bc='periodic'), 'GenericNDimFinDiff': dict(nvars=(32,), bc='periodic'), 'Quench': dict(nvars=31), 'QuenchIMEX': dict(nvars=31),
     'testequation0d': dict(lambdas=np.array([-1.0 + 0.5j, -0.3 - 2j, -20.0]), u0=1.0), 'test_equation_IMEX': dict(lambdas_implicit=np.array([-1.0 + 0.5j, -3.0]), lambdas_explicit=np.array([0.2j, -0.1]), u0=1.0),
@@ -206,6 +207,9 @@ def split_siblings(rng):
              ('AllenCahn_2D_FD', 'allencahn_fullyimplicit', 'allencahn_semiimplicit', dict(nvars=(16, 16))),
              ('AllenCahn_2D_FD', 'allencahn_fullyimplicit', 'allencahn_multiimplicit', dict(nvars=(16, 16))),
              ('Quench', 'Quench', 'QuenchIMEX', dict(nvars=31)),
+             ('AllenCahn_2D_FFT', 'allencahn2d_imex', 'allencahn2d_imex_stab', dict(nvars=(16, 16))),
+             ('AllenCahn_2D_FFT', 'allencahn2d_imex', 'allencahn2d_imex_stab', dict(nvars=(16, 16), nu=4)),
+             ('AllenCahn_2D_FFT', 'allencahn2d_imex', 'allencahn2d_imex_stab', dict(nvars=(16, 16), nu=6, eps=0.08)),
              ('TestEquation_0D', 'testequation0d', 'test_equation_IMEX', None)]
     for modn, a, b, pp in pairs:
         try:
@@ -220,6 +224,8 @@ def split_siblings(rng):
             fa, fb = A.eval_f(u, 0.2), B.eval_f(B.dtype_u(u), 0.2)
             comps = type(fb).components
             tot = sum(np.asarray(getattr(fb, c)) for c in comps)
+            if getattr(type(fa), 'components', None):  # both siblings are split: compare the full right-hand sides
+                fa = sum(np.asarray(getattr(fa, c)) for c in type(fa).components)
             cases += 1
             if rel(tot, np.asarray(fa)) > 1e-10:
                 out.append(f'{b}: split pieces do not sum to the right-hand side of {a} ({rel(tot, np.asarray(fa)):.2e})')
